@@ -342,6 +342,23 @@ pub fn codec(out_dir: &str) -> i32 {
                     }
                 }
             }
+            // long runs of the same short sequence (a decoder may batch its replacement characters or its copies): what the
+            // repetition decodes to is not the repetition of what the sequence decodes to, so String is the oracle here
+            if long_placements && !b.is_empty() && b.len() <= 2 {
+                for k in [31usize, 32, 33, 63, 64, 65, 100, 127, 128, 129, 255, 256, 257, 1000] {
+                    let inp: Vec<u8> = b.iter().copied().cycle().take(b.len() * k).collect();
+                    let want = String::from_utf8_lossy(&inp);
+                    checks += 1;
+                    note_pending("utf8", json!(inp));
+                    let l = LeanString::from_utf8_lossy(&inp);
+                    if l.as_bytes() != want.as_bytes() {
+                        finding("utf8_lossy", json!(inp), json!(want.as_bytes()), json!(l.as_bytes()), &mut findings, &mut kinds);
+                    }
+                    if LeanString::from_utf8(&inp).is_ok() != std::str::from_utf8(&inp).is_ok() {
+                        finding("utf8", json!(inp), json!({"valid":std::str::from_utf8(&inp).is_ok()}), json!("differs"), &mut findings, &mut kinds);
+                    }
+                }
+            }
             for (pad_l, pad_r) in pads {
                 let (inp, exp): (Vec<u8>, Vec<u8>) = ([pad_l, &b, pad_r].concat(), [pad_l, &t, pad_r].concat());
                 checks += 1;
@@ -451,6 +468,22 @@ pub fn codec(out_dir: &str) -> i32 {
                 for blk in [32usize, 64, 100, 128, 256, 512, 1000, 1024, 2048, 4096] {
                     for n in blk - 3..=blk + 1 {
                         pads16.push((n, 2));
+                    }
+                }
+            }
+            if std::env::var("LS_CODEC_SHORT").is_err() && !u.is_empty() && u.len() <= 2 {
+                for k in [31usize, 32, 33, 63, 64, 65, 100, 127, 128, 129, 255, 256, 257, 1000] {
+                    let inp: Vec<u16> = u.iter().copied().cycle().take(u.len() * k).collect();
+                    checks += 1;
+                    note_pending("utf16", json!(inp));
+                    let want = String::from_utf16(&inp);
+                    let got = LeanString::from_utf16(&inp);
+                    if got.is_ok() != want.is_ok() || (got.is_ok() && got.as_ref().unwrap().as_str() != want.as_ref().unwrap().as_str()) {
+                        finding("utf16", json!(inp), json!({"ok":want.is_ok()}), json!({"ok":got.is_ok()}), &mut findings, &mut kinds);
+                    }
+                    let l = LeanString::from_utf16_lossy(&inp);
+                    if l.as_str() != String::from_utf16_lossy(&inp) {
+                        finding("utf16_lossy", json!(inp), json!(String::from_utf16_lossy(&inp).as_bytes()), json!(l.as_bytes()), &mut findings, &mut kinds);
                     }
                 }
             }
